@@ -26,6 +26,11 @@
 (***************************************************************************)
 EXTENDS Naturals, Sequences, FiniteSets, TLC
 
+\* TRUE: the pool key is computed as by a `UriKey` that files `ws` and `wss` under `http` ("a WebSocket handshake
+\* is an ordinary HTTP/1.1 request, share the HTTP pool"). Not the behaviour of any tree that was pinned: a
+\* seeded-change style variant kept so that TLC demonstrably refutes it (TlsRoute_keymerge.cfg).
+CONSTANT KeyMergesWsIntoHttp
+
 Vias     == {"transport", "client"}      \* TlsTransport called directly | Client built by client::Builder
 Wrappers == {"tls", "plain"}             \* TlsTransport with / without a TLS configuration
 Schemes  == {"http", "https", "ws", "wss", "other"}
@@ -36,6 +41,10 @@ Certs    == {"match", "mismatch", "untrusted"}
 CAlpns   == {"none", "both", "h2"}       \* client offer: nothing | h2,http/1.1 | h2
 SAlpns   == {"none", "h1", "both"}       \* server support: nothing | http/1.1 | h2,http/1.1
 Faults   == {"none", "peerCloses", "peerPlaintext", "truncated"}
+\* HISTORY: the request under test is issued on a pooled client after a previous request to the SAME authority
+Prevs    == {"none", "http", "ws", "https", "wss"}   \* scheme of the previous request ("none": fresh client)
+Hists    == {"idle", "inflight"}   \* previous request completed, its HTTP/1.1 connection idle in the pool |
+                                   \* previous request still in flight on an HTTP/2 connection
 
 VARIABLES v,        \* the vector
           asBuilt,  \* which transcription
@@ -48,11 +57,19 @@ Secure(x) == x.scheme \in {"https", "wss"}
 TlsOn(x)  == x.wrapper = "tls"
 Must(x)   == TlsOn(x) /\ Secure(x)       \* the requests the first sentence of C12 speaks about
 
-\* dimensions that only matter when a TLS handshake is attempted are pinned otherwise
-Canonical(x) == Must(x) \/ (x.cert = "match" /\ x.calpn = "both" /\ x.salpn = "both" /\ x.fault = "none")
+\* dimensions that only matter when a TLS handshake is attempted are pinned otherwise; a history exists only on
+\* the pooled stack with a TLS configuration, a cooperative peer, and the protocol the history needs
+\* (idle: HTTP/1.1, no ALPN; in flight: HTTP/2 by ALPN on TLS and by prior knowledge on plaintext)
+Canonical(x) ==
+  IF x.prev = "none"
+    THEN x.hist = "idle" /\ (Must(x) \/ (x.cert = "match" /\ x.calpn = "both" /\ x.salpn = "both" /\ x.fault = "none"))
+    ELSE /\ x.via = "client" /\ x.wrapper = "tls" /\ x.host # "odd" /\ x.cert = "match" /\ x.fault = "none"
+         /\ (x.hist = "idle" => x.calpn = "none" /\ x.salpn = "none")
+         /\ (x.hist = "inflight" => x.calpn = "both" /\ x.salpn = "both")
 
 Vectors == {x \in [via : Vias, wrapper : Wrappers, scheme : Schemes, scase : SCases, host : Hosts, port : Ports,
-                   cert : Certs, calpn : CAlpns, salpn : SAlpns, fault : Faults] : Canonical(x)}
+                   cert : Certs, calpn : CAlpns, salpn : SAlpns, fault : Faults, prev : Prevs, hist : Hists] :
+              Canonical(x)}
 
 \* An observation: what the caller got and what the peer saw, per vector.
 NoObs == [result     |-> "none",  \* "ok" (a stream / a response) | "error" | "panic" | "none" (never resolved)
@@ -62,13 +79,37 @@ NoObs == [result     |-> "none",  \* "ok" (a stream / a response) | "error" | "p
           snis       |-> {},      \* server names offered in ClientHellos: "host" | "absent" | "wrong"
           verifies   |-> {},      \* names the certificate verifier was asked to check: "host" | "wrong"
           clientTls  |-> "na",    \* the returned stream reports a completed TLS session: "yes" | "no" | "na"
+          shared     |-> FALSE,   \* the request under test travelled on the connection of the previous request
           peerHs     |-> FALSE,   \* the peer completed a TLS handshake
           taskPanics |-> 0]       \* panics outside the caller's task
 
 Init == /\ v \in Vectors
         /\ asBuilt \in BOOLEAN
-        /\ pc = "call"
+        /\ pc = "pool"
         /\ out = NoObs
+
+\* ---- Pool::checkout: the key of a request is UriKey(scheme, authority) -------------------------------
+\* The previous request went to the same authority, so two keys are equal iff their scheme components are.
+\* (http::uri::Scheme compares and hashes case-insensitively.)
+KeyScheme(s) == IF KeyMergesWsIntoHttp /\ s \in {"ws", "wss"} THEN "http" ELSE s
+SameKey == v.prev # "none" /\ KeyScheme(v.prev) = KeyScheme(v.scheme)
+\* how the previous request's connection was made (TlsTransport::call on the previous URI, lower-case scheme)
+PrevTls == v.prev \in {"https", "wss"}
+
+PoolMiss ==                             \* no connection under this key: dial (Connector -> TlsTransport::call)
+  /\ pc = "pool" /\ ~SameKey
+  /\ pc' = "call" /\ UNCHANGED <<v, asBuilt, out>>
+
+PoolReuse ==                            \* idle HTTP/1.1 connection popped / HTTP/2 connection multiplexed
+  /\ pc = "pool" /\ SameKey
+  /\ out' = [out EXCEPT !.result = "ok", !.shared = TRUE,
+                        !.firsts = {IF PrevTls THEN "tls" ELSE "plain"},
+                        !.carrier = IF PrevTls THEN "tls" ELSE "plain",
+                        !.leak = ~PrevTls,
+                        !.snis = IF PrevTls THEN {IF v.host = "name" THEN "host" ELSE "absent"} ELSE {},
+                        !.verifies = IF PrevTls THEN {"host"} ELSE {},
+                        !.peerHs = PrevTls]
+  /\ pc' = "done" /\ UNCHANGED <<v, asBuilt>>
 
 \* ---- TlsTransport::call ----------------------------------------------------------------------
 \* scheme_str(): http::Uri lower-cases "http"/"https" (Scheme2::Standard), every other scheme keeps its spelling
@@ -143,7 +184,8 @@ HandshakeOk ==                          \* Poll::Ready(Ok(stream)) only now: han
   /\ out' = [Hello EXCEPT !.result = "ok", !.verifies = {"host"}, !.carrier = "tls", !.clientTls = "yes", !.peerHs = TRUE]
   /\ pc' = "done" /\ UNCHANGED <<v, asBuilt>>
 
-Next == \/ CallPlainBraid \/ CallTlsBraidSecure \/ CallTlsBraidOther \/ ConnectPlain \/ WrapperCall
+Next == \/ PoolMiss \/ PoolReuse
+        \/ CallPlainBraid \/ CallTlsBraidSecure \/ CallTlsBraidOther \/ ConnectPlain \/ WrapperCall
         \/ NewTlsStreamOk \/ NewTlsStreamPanic \/ NewTlsStreamError
         \/ HandshakeFault \/ HandshakeAlpnRefused \/ HandshakeCertRejected \/ HandshakeOk
 
@@ -168,6 +210,9 @@ P_FailIsError(x, o) == Must(x) /\ Failing(x) => o.result # "ok" /\ o.carrier = "
 \* (4) other schemes are not wrapped
 P_OtherNotWrapped(x, o) == ~Secure(x) => "tls" \notin o.firsts /\ o.snis = {} /\ o.clientTls # "yes"
                                           /\ (o.result = "ok" => o.carrier = "plain")
+\* (6) pooled connections are only shared between requests whose scheme class (secure / not) agrees: otherwise
+\*     an https/wss request rides a plaintext connection (1) or another scheme's request is wrapped (4)
+P_PoolClass(x, o) == TlsOn(x) /\ o.shared => (x.prev \in {"https", "wss"}) = Secure(x)
 \* (5) every host form yields a stream or an error: no panic (caller or spawned task), no request left unresolved
 P_Outcome(x, o) == o.result \in {"ok", "error"} /\ o.taskPanics = 0
 
@@ -180,15 +225,17 @@ M_Name            == Claimed => P_Name(v, out)
 M_FailIsError     == Claimed => P_FailIsError(v, out)
 M_OtherNotWrapped == Claimed => P_OtherNotWrapped(v, out)
 M_Outcome         == Claimed => P_Outcome(v, out)
+M_PoolClass       == Claimed => P_PoolClass(v, out)
 
 \* the same clauses on the as-built transcription (expected to FAIL on the pinned tree: D9, D14)
 AB == Done /\ asBuilt
 AB_NoClear  == AB => P_NoClear(v, out)
 AB_Outcome  == AB => P_Outcome(v, out)
-AB_Rest     == AB => P_Established(v, out) /\ P_Name(v, out) /\ P_FailIsError(v, out) /\ P_OtherNotWrapped(v, out)
+AB_Rest     == AB => /\ P_Established(v, out) /\ P_Name(v, out) /\ P_FailIsError(v, out)
+                         /\ P_OtherNotWrapped(v, out) /\ P_PoolClass(v, out)
 
 TypeOK == /\ v \in Vectors /\ asBuilt \in BOOLEAN
-          /\ pc \in {"call", "connectPlain", "wrapperCall", "newTlsStream", "handshake", "done"}
+          /\ pc \in {"pool", "call", "connectPlain", "wrapperCall", "newTlsStream", "handshake", "done"}
           /\ out.result \in {"none", "ok", "error", "panic"}
 \* every vector terminates in an outcome (no stage without a successor)
 Progress == pc # "done" => ENABLED Next
